@@ -61,7 +61,8 @@ CHECKS = {
              "for the five built-in scalars as regenerated from /repo, Proofs/BuiltinLeaves.v; literals are well-formed AST values; "
              "input field names unique; nothing is assumed of input-field defaults since the repair a67e006, found by this proof) and, for "
              "variables NESTED in list/object literals, under the premise that they are well-typed for their position (the "
-             "engine does not apply 5.8.5 there: known finding C07-nested-variable-usage).",
+             "engine does not apply 5.8.5 there: known finding C07-nested-variable-usage). "
+             "DIRECTIVE positions are tied to field positions on the engine: every request is also executed with its arguments moved to a FIELD directive whose hook records directive_args, and both texts a second time on the same engine with other runtime values (parse-cache hit); hook and resolver must receive the same dictionary per spelling.",
         note="Trusted: Coq kernel, correspondence harness, parser stand-in, scalar translator; directive "
              "argument positions use the same coerce_arguments code path and are exercised by C13's check.",
         design="4 C05"),
@@ -80,7 +81,8 @@ CHECKS = {
              "@skip/@include incl. both on one node, variables incl. null at defaulted non-null arguments, three ways of naming "
              "the runtime type) and compared inside Coq on data, errors and the resolver call log; each observation is also "
              "judged by the specification executor. Also proved (Proofs/ExecCalls.v): the resolver invocations of a request are at pairwise different response paths (no resolver is called twice for one response key and parent), for every configuration. PARTIAL: equality of the resolver call log with the specification's is "
-             "decided per run.",
+             "decided per run. "
+             "Parents of fields without resolver come as dicts, attribute objects, subscript-only records (not Mappings: sqlite3.Row style) and attribute objects whose attribute access raises (hand witnesses and fault kinds rec_parent / attr_raises).",
         note="Trusted: Coq kernel, correspondence harness + generators, parser stand-in; directive hooks other than "
              "@skip/@include absent (C13); errors and call log compared as multisets; message texts not compared.",
         design="4 C01"),
@@ -101,7 +103,8 @@ CHECKS = {
              "every other part is untouched -- and the paths of `errors` are exactly the origins (every origin "
              "reported, no entry elsewhere), for all inputs. PARTIAL: for mutations / sequential siblings the "
              "accounting, and for all operations the message / locations / extensions of entries, are decided per "
-             "run, not proved.",
+             "run, not proved. "
+             "The fault enumeration has 15 kinds, among them a parent attribute whose ACCESS raises (property getter) and subscript-only parents.",
         note="Trusted: as C01; exceptions that are not Exception subclasses and user exceptions pre-setting their own "
              "path are outside the model.",
         design="4 C02"),
@@ -143,7 +146,8 @@ CHECKS = {
              "started twice for one response path (C08_no_resolver_called_twice) (sibling and list strategies, "
              "engine-wide or per field, are part of the configuration the theorems quantify over). PARTIAL: the "
              "argument-coercion option (gather / one by one) is decided per run (the models do not distinguish it); the asyncio "
-             "runtime is outside the model.",
+             "runtime is outside the model. "
+             "Gated resolvers read info.path / info.field_name again after resuming: a ResolveInfo modified while its resolver is suspended fails that field, so the response differs between schedules.",
         note="Trusted: as C01 + the gated scheduler driver; asyncio task wake-up order beyond FIFO start, gather internals, "
              "cancellation, timeouts, thread-pool resolvers are runtime behaviour the model cannot exhibit.",
         design="4 C08"),
@@ -172,7 +176,8 @@ CHECKS = {
              "every response with the same request alone on a FRESH engine, repeats every request alone afterwards on the "
              "shared engine, fingerprints the cached DocumentNodes, and compares each in-flight request with run_sched of "
              "the model on that request alone under the projected schedule. PARTIAL: that the engine shares no other mutable "
-             "state between requests is established by these runs, not by proof.",
+             "state between requests is established by these runs, not by proof. "
+             "The invalid / valid document family of C16 is played in several orders on one engine against references computed in a fresh INTERPRETER (state kept on process-global rule objects would corrupt an in-process reference).",
         note="Trusted: as C08; baked schema, parse cache and parsed documents are assumed read-only by the model (checked by "
              "fingerprint and by the afterwards-runs).",
         design="4 C15"),
@@ -242,7 +247,11 @@ CHECKS = {
              "recorded findings (known_findings.json) are attributed by Coq-evaluated region predicates. single-root-field is EXACT "
              "through fragment spreads too (Proofs/SingleRootSpreads.v: the visited-set traversal collects every reachable root "
              "key, cyclic spread graphs included). PARTIAL: the link between the node predicates' field lookup and the "
-             "specification's (differs for `__typename` in interface scopes: recorded finding) is decided per document.",
+             "specification's (differs for `__typename` in interface scopes: recorded finding) is decided per document. "
+             "The two recorded findings are themselves theorems about the model (Properties/C07Findings.v, refuted-by-witness: "
+             "a document the specification refuses and the implementation model accepts, by vm_compute) -- the same two "
+             "documents are the replays of known_findings.json on the real engine. "
+             "Generated schemas give implementations additional nullable arguments on interface fields; using such an argument through the interface is one of the rewrites (and a hand witness).",
         note="Trusted: as C06. Documents with non-executable definitions are outside the document model (engine side only).",
         design="4 C07"),
     "C11": dict(
@@ -255,7 +264,9 @@ CHECKS = {
              "of an interface are exactly the objects declaring it (extensions included, any declaration order); reported fields "
              "are exactly the declared and extension-added fields that are neither injected `__` fields nor hidden by "
              "@nonIntrospectable; the interface field-type check of the build IS IsValidImplementationFieldType (covariant "
-             "implementations build). The check prints generated models (all kinds, wrappers, defaults, several implementers "
+             "implementations build); what an extension adds is reported (Proofs/IntrospectExt.v: the extended type's entry "
+             "carries the added enum values / union members / interfaces / fields after the declared ones). The check "
+             "prints generated models (all kinds, wrappers, defaults, several implementers "
              "declared before/after the interface, covariant implementations, unions, extensions of every kind incl. `extend "
              "schema` without operations, @deprecated with/without reason, @nonIntrospectable) as SDL supplied as string, file, "
              "list of files and directory (with/without trailing newline, ending in comment lines), runs the standard "
@@ -264,7 +275,8 @@ CHECKS = {
              "reasons match, a @nonIntrospectable schema refuses introspection. PARTIAL: lark grammar/transformers, file "
              "handling and the executor walking schema objects are exercised, not modelled. Default values are compared as "
              "VALUES: the reported defaultValue text, parsed back, must be the declared default (every schema carries an input "
-             "type with defaults of every kind, strings needing escapes included).",
+             "type with defaults of every kind, strings needing escapes included). "
+             "String defaults and @deprecated reasons contain an escaped backslash in front of every escape letter and of uXXXX (this exposed and now guards the repaired defect e460bec).",
         note="Trusted: Coq kernel, generators, SDL printer. __typename = concrete object type is covered by C01's check.",
         design="4 C11"),
     "C12": dict(
@@ -290,7 +302,8 @@ CHECKS = {
              "validator lists of _validate / _validate_extensions and the order of the steps of bake() are extracted from the "
              "CURRENT source on every run and proved equal to the ones the model transcribes (Proofs/Wiring.v). "
              "`extend schema` naming an operation whose root type is already defined is refused "
-             "(C12_schema_operation_redefinition_refused).",
+             "(C12_schema_operation_redefinition_refused). "
+             "Syntax rewrites include the productions that demand at least one element: extensions adding nothing (every kind, first / last in the document), bare `extend schema` / `extend scalar`, empty value / field / argument / location lists.",
         note="Trusted: Coq kernel, generators, SDL printer; the lark grammar (syntax verdicts) and inspect (awaitability) are "
              "oracles.",
         design="4 C12"),
@@ -314,7 +327,11 @@ CHECKS = {
              "subsets, distinct arguments) and compares inside Coq the values resolvers receive, the field result and the "
              "multiset of post-input-coercion invocations; field / argument hooks exactly-once and the object/field/scalar "
              "output chain are checked per request. PARTIAL: the per-type bake() wiring is transcribed (tied by the "
-             "correspondence); enum and abstract-type output hooks are exercised at bake time only.",
+             "correspondence); enum output positions (a field and a list field of an enum type) are judged on the engine's "
+             "invocation log per request -- the enum type's on_pre_output_coercion hooks once per value of the position, "
+             "null list items included, the enum value's once per occurrence -- but are not in the Coq model; "
+             "abstract-type output hooks are exercised at bake time only. "
+             "A probe field with SDL defaults on every argument: omitted = the default literals written out = declared unprovided variables, two aliases in one request, and the whole set executed three times in a row on one engine with identical values and hook logs.",
         note="Trusted: Coq kernel, harness (tagging hooks, generators); the order between enum-value and enum-type output hooks "
              "is not fixed by the property and not compared.",
         design="4 C13"),
@@ -327,7 +344,8 @@ CHECKS = {
              "consumes the real async stream event by event for generated subscription documents x event sequences "
              "(well-formed payloads, nulls, garbage), compares each response with the engine's own execute("
              "initial_value=event), with the implementation model, with the specification executor, and checks the "
-             "source is started once with the model's coerced arguments. Validation in front of the executor (Model/SubscribeValidated.v): a document the walk refuses -- e.g. two different root response keys through fields and inline fragments -- is answered with one errors-only response and no stream is created; an accepted one is executed unchanged. PARTIAL: aclose/cancellation are runtime.",
+             "source is started once with the model's coerced arguments. Validation in front of the executor (Model/SubscribeValidated.v): a document the walk refuses -- e.g. two different root response keys through fields and inline fragments -- is answered with one errors-only response and no stream is created; an accepted one is executed unchanged. PARTIAL: aclose/cancellation are runtime. "
+             "A hand scenario uses the library's Date / DateTime scalars (coercion not idempotent) in list and input-object variables: every event must be answered like execute(initial_value=event) with a fresh copy of the variables.",
         note="Trusted: as C01; the async-generator protocol is outside the model.",
         design="4 C14"),
     "C18": dict(
@@ -337,12 +355,20 @@ CHECKS = {
              "Engine.execute is its last branch). Proved for every parser verdict, operation name, variables, user code "
              "and total error coercer: `errors` present iff non-empty; errors = map coercer (errors awaited), i.e. the "
              "coercer is awaited exactly once per reported error, in order, and its return value is what appears; "
-             "parse failures, failed operation selection and refused variables give data:null and run nothing. The "
+             "parse failures, failed operation selection and refused variables give data:null and run nothing. "
+             "Locations (Proofs/ExecLocations.v, Properties/C18Locations.v): the executor never invents a location -- "
+             "for ANY predicate P on line/column pairs that holds of the locations the parser attached to the document's "
+             "nodes (field nodes, the outermost value node of each argument, variable definitions), P holds of every "
+             "location of every entry handed to the error coercer (invariant through collect_fields with fragments, "
+             "argument coercion, located_error / handle_field_error, list items, abstract types, the per-field "
+             "sequential/concurrent passes, variable coercion); instantiated with `a positive pair inside the request "
+             "text` (in_text). The "
              "check feeds arbitrary text/bytes (random, mutated valid documents, deep nesting, unicode, NUL, lone "
              "surrogates), operation-name variants, variables of any JSON shape and a recording coercer to the real "
              "engine and judges each observation with the envelope predicate (never raises; data present; errors "
              "well-formed; locations positive and inside the text; extensions only when set; coercer called once per "
-             "error); parsing+valid requests are also compared with the execution model inside Coq.",
+             "error); parsing+valid requests are also compared with the execution model inside Coq. "
+             "A third engine uses a BLANKING error coercer (returns None, {}, 0, \"\", dicts): `errors` must be exactly the list of its return values and present iff it was awaited.",
         note="Trusted: parser stand-in (which texts are syntax errors, reported locations), Coq kernel, harness.",
         design="4 C18"),
     "C16": dict(
@@ -356,7 +382,8 @@ CHECKS = {
              "documents are not mutated) is tied to /repo by sending request histories (valid, invalid, broken, same "
              "text with other variables/operation names, multi-operation documents with different variable "
              "signatures, str/bytes) to engines with 5 cache configurations and comparing every position with a fresh "
-             "uncached engine, plus a structural fingerprint of the cached DocumentNode before/after every request.",
+             "uncached engine, plus a structural fingerprint of the cached DocumentNode before/after every request. "
+             "The document family includes documents sharing their operation text with different fragments behind it (variables used / defined only through the fragments, unknown field, nested spreads).",
         note="Trusted: Coq kernel, harness; GraphQLSchema.__eq__/__hash__ and lru_cache itself are not verified.",
         design="4 C16"),
     "C17": dict(
@@ -369,7 +396,8 @@ CHECKS = {
              "bundles with overlapping type/field/scalar/directive/subscription names in every interleaving (exhaustive "
              "for pairs in thorough, sampled otherwise), each in a fresh process, and comparing each co-resident "
              "engine's answers (queries, introspection, a subscription, two rounds) and its registry entry with the "
-             "same bundle built alone in a fresh process. PARTIAL: import caching of user modules is runtime.",
+             "same bundle built alone in a fresh process. PARTIAL: import caching of user modules is runtime. "
+             "Bundles differ in definitions under the same names: an argument mandatory in one bundle and optional in another (on a field and on a directive), an enum with other values.",
         note="Trusted: Coq kernel, harness; state kept on type objects outside the registry is covered only by the "
              "differential runs.",
         design="4 C17"),
